@@ -69,8 +69,21 @@ func exec(c proto.Case, o *proto.Out) []string {
 		}
 		var a string
 		switch w[0] {
-		case "fmode", "fproc", "fx", "fq", "fleak":
+		case "fmode", "fproc", "fx", "fq", "fleak", "fbuild", "fx2":
 			a = flowsOp(st, w)
+			if w[0] == "fx2" {
+				if strings.Contains(a, "=retry") {
+					nRetry++
+				}
+				if strings.Contains(a, "=failed") {
+					nFailed++
+				}
+				if strings.HasPrefix(a, "A=") && !strings.Contains(a, "B=-") {
+					o.Count("flows2-both-flows")
+				} else {
+					o.Count("flows2-one-flow")
+				}
+			}
 			if w[0] == "fx" {
 				switch {
 				case strings.HasPrefix(a, "retry"):
@@ -261,6 +274,38 @@ func genFlowsEngine(r *prng.R, ln int) []string {
 	return append(ops, "fleak")
 }
 
+// two overlapping flows (host/* and host/orders/items), each with its own Retry processor, same or different keys
+func genFlowsEngine2(r *prng.R, ln int) []string {
+	lohi := prng.Pick(r, [][2]int{{500, 599}, {500, 502}, {429, 429}, {100, 599}})
+	ops := []string{fmt.Sprintf("fmode mode=engine2 timeout=%d lo=%d hi=%d", prng.Pick(r, []int{0, 30, 1000}), lohi[0], lohi[1])}
+	keyA, keyB := "R", "R"
+	if r.Chance(40) {
+		keyB = "Q"
+	}
+	which := r.Intn(10)
+	if which != 0 {
+		ops = append(ops, fmt.Sprintf("fproc name=%s flow=A attempts=%d cooldown=0 mult4=0", keyA, r.Range(1, 4)))
+	}
+	if which != 1 {
+		ops = append(ops, fmt.Sprintf("fproc name=%s flow=B attempts=%d cooldown=0 mult4=0", keyB, r.Range(1, 4)))
+	}
+	ops = append(ops, "fbuild")
+	nseq := r.Range(1, 3)
+	for len(ops) < ln+3 {
+		s := seqNames[r.Intn(nseq)]
+		st := prng.Pick(r, statuses)
+		if r.Chance(70) {
+			st = lohi[0] + r.Intn(lohi[1]-lohi[0]+1)
+		}
+		both := 1
+		if r.Chance(30) {
+			both = 0
+		}
+		ops = append(ops, fmt.Sprintf("fx2 seq=%s both=%d status=%d", s, both, st))
+	}
+	return ops
+}
+
 var gaps = []int64{0, 1, 1_000_000_000, 20_000_000_000, 30_999_999_999, 31_000_000_000, 31_000_000_001,
 	32_000_000_000, 33_000_000_000, 35_999_999_999, 36_000_000_000, 36_000_000_001, 100_000_000_000}
 
@@ -391,10 +436,12 @@ func gen(r *prng.R, f proto.Flags, emit func(proto.Case)) {
 		ln := rr.Range(3, 34)
 		var ops []string
 		switch x := rr.Intn(100); {
-		case x < 45:
+		case x < 43:
 			ops = genFlowsDirect(rr, ln)
-		case x < 55:
+		case x < 49:
 			ops = genFlowsEngine(rr, ln)
+		case x < 55:
+			ops = genFlowsEngine2(rr, ln)
 		case x < 82:
 			ops = genPolicy(rr, ln, false)
 		default:
